@@ -17,7 +17,7 @@ import (
 // the namer reserves (a literal consulted with strings.HasPrefix in a function
 // reachable from the namer). Otherwise a user identifier spelt like it names a
 // second entity with the same spelling.
-var identFormat = regexp.MustCompile(`^[_A-Za-z][A-Za-z0-9_]*(%[ds][A-Za-z0-9_]*)+$`)
+var identFormat = regexp.MustCompile(`^(?:[_A-Za-z][A-Za-z0-9_]*(?:%[ds][A-Za-z0-9_]*)+|%s[A-Za-z_][A-Za-z0-9_]*(?:%[ds][A-Za-z0-9_]*)*)$`)
 
 func (c *Ctx) runGenFormat(r *Report, rule string, pkg string, exceptions map[string]string) {
 	c.runGenFormatReq(r, rule, pkg, exceptions, nil)
